@@ -299,7 +299,8 @@ def r5_use_polarity(ctx, rep, R='C08.R5'):
     fs = m.func('find.find_suites')
     for node in ast.walk(fs.node):
         if isinstance(node, ast.Continue):
-            lits = path_literals(node, fs.node)
+            from .common import guard_literals
+            lits = guard_literals(ctx, fs, node)
             acc = [(e, pos) for e, pos in lits if isinstance(e, ast.Call) and is_name(e.func, 'accept')]
             if acc:
                 n += 1
@@ -314,7 +315,8 @@ def r5_use_polarity(ctx, rep, R='C08.R5'):
     for node in ast.walk(tf.node):
         if isinstance(node, ast.Yield) and isinstance(node.value, ast.Tuple) and \
                 not (isinstance(node.value.elts[1], ast.Constant)):
-            lits = path_literals(node._parent, tf.node)
+            from .common import guard_literals
+            lits = guard_literals(ctx, tf, node)
             acc = [(e, pos) for e, pos in lits if 'accept' in norm(e)]
             n += 1
             ok = len(acc) == 1 and acc[0][1] is True
@@ -331,7 +333,8 @@ def r5_use_polarity(ctx, rep, R='C08.R5'):
     ff = m.func('filter.Filter.global_setup')
     for c in own_calls(ff.node):
         if isinstance(c.func, ast.Attribute) and c.func.attr == 'pop' and c.args:
-            lits = path_literals(c, ff.node)
+            from .common import guard_literals
+            lits = guard_literals(ctx, ff, c)
             acc = [(e, pos) for e, pos in lits if isinstance(e, ast.Call) and is_name(e.func, 'accept')]
             if acc:
                 n += 1
@@ -340,4 +343,4 @@ def r5_use_polarity(ctx, rep, R='C08.R5'):
                           'Filter removes a layer iff not accept(name)',
                           'a layer is removed under %s' % [(norm(e), p) for e, p in acc],
                           key='filter:pop', func=ff.qualname, where=ctx.where(ff, c))
-    rep.floor(R, n, 4, 'predicate use sites')
+    rep.floor(R, n, 3, 'predicate use sites')
